@@ -2,6 +2,8 @@ package main
 
 import (
 	"bytes"
+	"math"
+	"math/bits"
 	"sort"
 
 	"github.com/bronlabs/bron-crypto/pkg/base/algebra"
@@ -68,7 +70,46 @@ type c12Leaf struct {
 	path []int    // child indices from the root
 	kind string   // scalar | point | uint | nat
 	alts [][]byte // encoded replacement items (the first ones are the minimal changes)
+	must int      // the first `must` alternatives are always tried (never sampled away)
 }
+
+// c12WrapSolutions returns values x with x*y ≡ l (mod 2^64), x ≠ 0: candidates for an integer whose
+// product with a sibling integer is compared with a length (matrix dimensions, counts × sizes) and
+// could wrap around a machine word. Values that fit a positive int64 come first.
+func c12WrapSolutions(y, l uint64) []uint64 {
+	if y == 0 {
+		return nil
+	}
+	s := uint(bits.TrailingZeros64(y))
+	if s > 0 && l&((uint64(1)<<s)-1) != 0 {
+		return nil
+	}
+	o := y >> s
+	inv := o // Newton iteration for the inverse of an odd number modulo 2^64
+	for i := 0; i < 6; i++ {
+		inv *= 2 - o*inv
+	}
+	base := (l >> s) * inv
+	var out []uint64
+	if s == 0 {
+		if base != 0 {
+			out = append(out, base)
+		}
+		return out
+	}
+	mod := uint64(1) << (64 - s)
+	base &= mod - 1
+	for j := uint64(0); j < 4 && j < (uint64(1)<<s); j++ {
+		if v := base + j*mod; v != 0 {
+			out = append(out, v)
+		}
+	}
+	sort.Slice(out, func(i, j int) bool { return (out[i] <= math.MaxInt64) && !(out[j] <= math.MaxInt64) })
+	return out
+}
+
+// c12Lens is set by c12ValueEdits for the encoding being edited: the lengths of its arrays and byte strings.
+var c12Lens []uint64
 
 // c12CollectLeaves walks the tree. Arrays with many leaf children (matrix data) are sampled.
 func c12CollectLeaves(r *Rng, n *c12Node, fam *c12LeafFamily, path []int, sample int, uints []uint64, out *[]c12Leaf) {
@@ -84,8 +125,32 @@ func c12CollectLeaves(r *Rng, n *c12Node, fam *c12LeafFamily, path []int, sample
 				alts = append(alts, c12Uint(u).enc())
 			}
 		}
+		// word-size boundaries and products that wrap around 2^64 onto a length occurring in the encoding
+		var must [][]byte
+		seenW := map[uint64]bool{n.arg: true}
+		addW := func(v uint64) {
+			if !seenW[v] && len(must) < 6 {
+				seenW[v] = true
+				must = append(must, c12Uint(v).enc())
+			}
+		}
+		for _, l := range c12Lens {
+			for _, u := range append(append([]uint64{}, uints...), n.arg) {
+				if u == n.arg {
+					continue
+				}
+				for _, v := range c12WrapSolutions(u, l) {
+					if v > 1<<20 { // only the wrapping ones: small solutions are ordinary value edits
+						addW(v)
+					}
+				}
+			}
+		}
+		addW(math.MaxInt64)
+		addW(1 << 32)
 		alts = append(alts, c12Uint(1<<16).enc(), c12Uint(1<<63).enc())
-		*out = append(*out, c12Leaf{path: here, kind: "uint", alts: alts})
+		alts = append(append([][]byte{alts[0]}, must...), alts[1:]...)
+		*out = append(*out, c12Leaf{path: here, kind: "uint", alts: alts, must: 1 + len(must)})
 	case 2:
 		// a big-endian natural number (moduli, numct.Nat): shorter / longer / neighbouring values
 		var alts [][]byte
@@ -192,6 +257,20 @@ func c12ValueEdits(r *Rng, b []byte, fam *c12LeafFamily, perLeaf, sample int) []
 			uints = append(uints, n.arg)
 		}
 	}
+	c12Lens = c12Lens[:0]
+	seenL := map[uint64]bool{}
+	for _, n := range all {
+		if (n.major == 4 || n.major == 2) && len(c12Lens) < 6 {
+			l := uint64(len(n.kids))
+			if n.major == 2 {
+				l = uint64(len(n.data))
+			}
+			if l > 0 && !seenL[l] {
+				seenL[l] = true
+				c12Lens = append(c12Lens, l)
+			}
+		}
+	}
 	var leaves []c12Leaf
 	c12CollectLeaves(r, root, fam, nil, sample, uints, &leaves)
 	var out []*c12Mutant
@@ -200,7 +279,10 @@ func c12ValueEdits(r *Rng, b []byte, fam *c12LeafFamily, perLeaf, sample int) []
 		if perLeaf > 0 && len(alts) > perLeaf && lf.kind != "nat" { // big numbers: every alternative
 			// the minimal change first, the others at random
 			sel := [][]byte{alts[0]}
-			for len(sel) < perLeaf {
+			if lf.must > 1 && lf.must <= len(alts) {
+				sel = append([][]byte{}, alts[:lf.must]...)
+			}
+			for len(sel) < perLeaf+lf.must-1 && len(sel) < len(alts) {
 				sel = append(sel, alts[1+r.IntN(len(alts)-1)])
 			}
 			alts = sel
